@@ -1,5 +1,7 @@
 import WfProofs.EngineRoute
 import WfProofs.EngineIdle
+import WfProofs.EngineQueue
+import WfProofs.EngineTelemetry
 import WfProofs.RunnerTicks
 import WfModel.Runner
 import WfProps.EngineShape
@@ -599,3 +601,244 @@ example :
       .workerDone 1 0 [.failed 9 3], .drain]
     (Runner.run C02.runCfg (fun _ _ _ _ => .raise) C02.r0 acts).outcome = some (.failed 1 9) ∧
     lostAlong C02.runCfg (fun _ _ _ _ => .raise) C02.r0 acts = [] := by decide
+
+/-! ## The delivery is made: an accepted event waits in a step's queue only for a worker
+
+Routing (`C02_route_count`) puts the event into the step's attempts — on a worker, or into the queue
+when all `num_workers` slots are taken.  "Handed to the step" means the invocation is started; these
+theorems say the queue is only ever a waiting room for a *busy* step: after every reduction that does
+not end the run, and so in every state of every run of the runner that has not ended, a step holding a
+queued event has all its workers taken.  In particular a worker that is given back — by a completed
+invocation, but just as well by one that suspends in `wait_for_event`, fails into a delayed retry or
+fails for good into a `@catch_error` handler — goes to the head of the queue in that very reduction. -/
+
+theorem C02.execCmd_st (r : Runner) (c : Cmd) : (execCmd r c).st = r.st := by
+  cases c <;> simp only [execCmd, Runner.finish, Runner.push]
+  · rename_i att step delay
+    cases delay with
+    | none => rfl
+    | some d => simp only; split <;> rfl
+  · split <;> rfl
+
+theorem C02.execCmds_st : ∀ (cmds : List Cmd) (r : Runner), (execCmds r cmds).st = r.st
+  | [], r => rfl
+  | c :: cs, r => by
+    simp only [execCmds]
+    split
+    · exact C02.execCmd_st r c
+    · rw [C02.execCmds_st cs _, C02.execCmd_st]
+
+/-- **one reduction**: if queued events wait only at fully occupied steps before the tick, then —
+unless the tick ends the run — so they do after it, for every kind of tick and every result list -/
+theorem C02_queued_event_waits_only_for_a_worker (cfg : Cfg) (hwf : cfg.WF) (pol : Policy) (tick : Tick)
+    (st : State) (now : Int)
+    (h : ∀ c ∈ cfg.steps, (st.workers c.name).queue ≠ [] → c.numWorkers ≤ (st.workers c.name).inProg.length)
+    (hne : (reduce cfg pol tick st now).2.any Cmd.isExit = false) :
+    ∀ c ∈ cfg.steps, ((reduce cfg pol tick st now).1.workers c.name).queue ≠ [] →
+      c.numWorkers ≤ ((reduce cfg pol tick st now).1.workers c.name).inProg.length :=
+  reduce_qInv cfg hwf pol tick st now h hne
+
+def C02.Handed (cfg : Cfg) (r : Runner) : Prop := r.outcome = none → QInv cfg r.st
+
+theorem C02.step_st_of_not_drain (cfg : Cfg) (pol : Policy) (r : Runner) (a : Act) (ha : a ≠ .drain) :
+    (r.step cfg pol a).st = r.st := by
+  unfold Runner.step
+  split
+  · rfl
+  · cases a with
+    | drain => exact absurd rfl ha
+    | workerDone s w res =>
+      simp only
+      split
+      · rfl
+      · split <;> rfl
+    | pull =>
+      simp only
+      split
+      · rfl
+      · split <;> rfl
+    | timer => simp only; split <;> rfl
+    | advance dt => rfl
+    | external t => simp only; split <;> rfl
+    | stepWrite p => rfl
+
+theorem C02.step_handed (cfg : Cfg) (hwf : cfg.WF) (pol : Policy) (r : Runner) (a : Act)
+    (h : C02.Handed cfg r) : C02.Handed cfg (r.step cfg pol a) := by
+  intro ho
+  cases hr : r.outcome with
+  | some o =>
+    have : r.step cfg pol a = r := step_ended' cfg pol r a (by simp [hr])
+    rw [this] at ho; rw [hr] at ho; cases ho
+  | none =>
+    have hq := h hr
+    cases a with
+    | drain =>
+      cases hb : r.buf with
+      | nil =>
+        have : r.step cfg pol .drain = r := by
+          unfold Runner.step
+          simp [hr, hb]
+        rw [this]; exact hq
+      | cons t rest =>
+        rw [step_drain cfg pol r t rest hr hb] at ho ⊢
+        by_cases hc : (reduce cfg pol t r.st r.now).2.contains .crash = true
+        · rw [if_pos hc] at ho; simp [Runner.finish] at ho
+        · rw [if_neg hc] at ho ⊢
+          rw [C02.execCmds_st]
+          show QInv cfg (reduce cfg pol t r.st r.now).1
+          apply reduce_qInv cfg hwf pol t r.st r.now hq
+          have hopen := execCmds_open (reduce cfg pol t r.st r.now).2
+            (r.logged t rest (reduce cfg pol t r.st r.now).1) (by exact hr) ho
+          rw [List.any_eq_false]
+          intro c hcm
+          have hce := hopen c hcm
+          cases c <;> simp_all [cmdEnds, Cmd.isExit]
+    | workerDone s w res => rw [C02.step_st_of_not_drain cfg pol r _ (by simp)]; exact hq
+    | pull => rw [C02.step_st_of_not_drain cfg pol r _ (by simp)]; exact hq
+    | timer => rw [C02.step_st_of_not_drain cfg pol r _ (by simp)]; exact hq
+    | advance dt => rw [C02.step_st_of_not_drain cfg pol r _ (by simp)]; exact hq
+    | external t => rw [C02.step_st_of_not_drain cfg pol r _ (by simp)]; exact hq
+    | stepWrite p => rw [C02.step_st_of_not_drain cfg pol r _ (by simp)]; exact hq
+
+theorem C02.run_handed (cfg : Cfg) (hwf : cfg.WF) (pol : Policy) :
+    ∀ (acts : List Act) (r : Runner), C02.Handed cfg r → C02.Handed cfg (Runner.run cfg pol r acts)
+  | [], r, h => h
+  | a :: as, r, h => by
+    simp only [Runner.run, List.foldl_cons]
+    exact C02.run_handed cfg hwf pol as _ (C02.step_handed cfg hwf pol r a h)
+
+theorem C02.init_st (cfg : Cfg) (st0 : State) (now : Int) (start : Option Ev) (timeout : Option Nat) :
+    (Runner.init cfg st0 now start timeout).st = (rewind cfg st0 now).1 := by
+  unfold Runner.init
+  simp only
+  rw [C02.execCmds_st]
+
+/-- **whole runs**: in every state of every run of the runner (any start state — a resumed run
+first rewinds —, any schedule of drains, finishing workers with arbitrary result lists, timers,
+external sends) that has not ended, a step that still holds an accepted-but-not-started event has
+all its `num_workers` workers taken: an event is never left waiting beside a free worker -/
+theorem C02_accepted_event_started_as_soon_as_a_worker_is_free (cfg : Cfg) (hwf : cfg.WF) (pol : Policy)
+    (st0 : State) (now : Int) (start : Option Ev) (timeout : Option Nat) (acts : List Act) :
+    let r := Runner.run cfg pol (Runner.init cfg st0 now start timeout) acts
+    r.outcome = none →
+      ∀ c ∈ cfg.steps, (r.st.workers c.name).queue ≠ [] → c.numWorkers ≤ (r.st.workers c.name).inProg.length := by
+  intro r ho
+  have h0 : C02.Handed cfg (Runner.init cfg st0 now start timeout) := by
+    intro _
+    rw [C02.init_st]
+    intro c hc
+    unfold rewind
+    exact rewindLoop_qOk now (sortedSteps cfg) st0 []
+      ((sortedSteps_names_perm cfg).nodup_iff.mpr hwf) c (mem_sortedSteps_iff.mpr hc)
+  exact C02.run_handed cfg hwf pol acts _ h0 ho
+
+/-- the event a command hands to a step (starts an invocation on) -/
+def C02.started : Cmd → Option Ev
+  | .runWorker _ e _ => some e
+  | _ => none
+
+theorem C02.addOrEnqueue_started (att : Attempt) (step : Nat) (ss : StepState) (nw : Nat) (now : Int)
+    (h : IdsOk ss nw) (hlt : ss.inProg.length < nw) :
+    (addOrEnqueue att step ss nw now).2.filterMap C02.started = [att.ev] := by
+  unfold addOrEnqueue
+  simp only [hlt, ↓reduceIte]
+  cases hf : freeIds ss nw with
+  | nil => exact absurd hf (freeIds_ne_nil h hlt)
+  | cons id rest => simp [C02.started]
+
+/-- the drain loop hands the queue over from its head, in order, without dropping or repeating an
+event: what it started followed by what it left queued is the queue it found -/
+theorem C02.drain_hands_over_in_order (step nw : Nat) (now : Int) :
+    ∀ (fuel : Nat) (ss : StepState), IdsOk ss nw →
+      (drain step nw now fuel ss).2.filterMap C02.started ++ (drain step nw now fuel ss).1.queue.map (·.ev)
+        = ss.queue.map (·.ev)
+  | 0, ss, _ => by simp [drain]
+  | fuel + 1, ss, h => by
+    unfold drain
+    split
+    · rename_i hq; simp [hq]
+    · rename_i a q hq
+      split
+      · rename_i hlt
+        have h1 : IdsOk { ss with queue := q } nw := h
+        have ih := C02.drain_hands_over_in_order step nw now fuel _ (addOrEnqueue_idsOk a step _ nw now h1)
+        simp only [List.filterMap_append, List.append_assoc]
+        rw [ih, C02.addOrEnqueue_started a step _ nw now h1 hlt,
+          addOrEnqueue_queue_of_space a step { ss with queue := q } nw now hlt, hq]
+        simp
+      · simp [hq]
+
+/-- **the freed worker goes to the queue, head first**: the commands of a step-result reduction end
+with the starts of a prefix of the step's queue, in queue order, and exactly the rest stays queued —
+whatever the result list says (completed, suspended in a wait, failed into a retry or a handler) -/
+theorem C02_step_result_hands_queue_over_in_order (cfg : Cfg) (hwf : cfg.WF) (pol : Policy) (step worker : Nat)
+    (tickEv : Ev) (res : List Res) (st : State) (now : Int) (h : IdsInv cfg st) :
+    ∃ pre post, (processStepResult cfg pol step worker tickEv res st now).2 = pre ++ post ∧
+      post.filterMap C02.started ++
+          (((processStepResult cfg pol step worker tickEv res st now).1.workers step).queue.map (·.ev))
+        = (st.workers step).queue.map (·.ev) := by
+  unfold processStepResult
+  split
+  · exact ⟨[.crash], [], rfl, by simp⟩
+  · rename_i hhas
+    split
+    · exact ⟨[.crash], [], rfl, by simp⟩
+    · rename_i exec hfind
+      obtain ⟨c, hc⟩ := hasStep_find hhas
+      obtain ⟨hcmem, hcname⟩ := Cfg.mem_of_find hc
+      subst hcname
+      have hnw : cfg.nw c.name = c.numWorkers := Cfg.nw_of_mem hwf hcmem
+      have hfold := foldl_applyRes_inProg cfg pol c.name tickEv (res.any isResult) res
+        { st := st, exec := exec }
+      have hq := foldl_applyRes_queue cfg pol c.name tickEv (res.any isResult) res
+        { st := st, exec := exec } c.name
+      have hinv : IdsInv cfg (res.foldl (applyRes cfg pol c.name tickEv (res.any isResult))
+          { st := st, exec := exec }).st := IdsInv.of_inProg_eq h hfold.1
+      have hwid : (res.foldl (applyRes cfg pol c.name tickEv (res.any isResult))
+          { st := st, exec := exec }).exec.wid = worker := by
+        rw [hfold.2]; exact find?_wid hfind
+      simp only
+      generalize (res.foldl (applyRes cfg pol c.name tickEv (res.any isResult))
+          { st := st, exec := exec }) = acc at hinv hwid hq
+      have hss1 := settle_idsOk acc c.name worker tickEv c.numWorkers hwid (hinv c hcmem)
+      have hsq := settle_queue acc c.name worker tickEv
+      split
+      · refine ⟨_, [], (List.append_nil _).symm, ?_⟩
+        simp only [State.set, ↓reduceIte, List.filterMap_nil, List.nil_append]
+        rw [hsq, hq]
+      · refine ⟨_, _, rfl, ?_⟩
+        simp only [State.set, ↓reduceIte]
+        rw [hnw, C02.drain_hands_over_in_order c.name c.numWorkers now _ _ hss1, hsq, hq]
+
+/-! Non-vacuity: step 1 has one worker; `a` runs, `b` is queued behind it.  The invocation on `a`
+then gives its worker back without a step result — it suspends in `wait_for_event`, fails into a
+retry that is 5 s away, or fails for good into its `@catch_error` handler (step 2) — and in each
+case the same reduction starts `b` on the freed worker and empties the queue. -/
+def C02.hoCfg : Cfg :=
+  { steps := [{ name := 0, accepted := [1], numWorkers := 1, hasRetry := false },
+              { name := 1, accepted := [5], numWorkers := 1, hasRetry := true },
+              { name := 2, accepted := [4], numWorkers := 1, hasRetry := false }],
+    handlerFor := [(1, 2)], handlers := [(2, 1)] }
+def C02.hoA : Ev := { ty := 5, kind := .plain, uid := 1 }
+def C02.hoB : Ev := { ty := 5, kind := .plain, uid := 2 }
+def C02.hoSt (pol : Policy) : State :=
+  (reduce C02.hoCfg pol (.addEvent { ev := C02.hoB } none)
+    (reduce C02.hoCfg pol (.addEvent { ev := C02.hoA } none) { initState with isRunning := true } 0).1 0).1
+example : C02.hoCfg.WF := by simp [Cfg.WF, Cfg.names, C02.hoCfg]
+example : (((C02.hoSt (fun _ _ _ _ => .stop)).workers 1).queue.map (·.ev)) = [C02.hoB] ∧
+    (((C02.hoSt (fun _ _ _ _ => .stop)).workers 1).inProg.map (·.ev)) = [C02.hoA] := by decide
+example :
+    let r := reduce C02.hoCfg (fun _ _ _ _ => .stop)
+      (.stepResult 1 0 C02.hoA [.addWaiter 7 none none none 3]) (C02.hoSt (fun _ _ _ _ => .stop)) 1
+    r.2.any Cmd.isExit = false ∧ r.2.contains (.runWorker 1 C02.hoB 0) = true ∧ (r.1.workers 1).queue = [] ∧
+      ((r.1.workers 1).waiters.map (·.wid)) = [7] := by decide
+example :
+    let r := reduce C02.hoCfg (fun _ _ _ _ => .retry 5)
+      (.stepResult 1 0 C02.hoA [.failed 3 1]) (C02.hoSt (fun _ _ _ _ => .retry 5)) 1
+    r.2.any Cmd.isExit = false ∧ r.2.contains (.runWorker 1 C02.hoB 0) = true ∧ (r.1.workers 1).queue = [] := by decide
+example :
+    let r := reduce C02.hoCfg (fun _ _ _ _ => .stop)
+      (.stepResult 1 0 C02.hoA [.failed 3 1]) (C02.hoSt (fun _ _ _ _ => .stop)) 1
+    r.2.any Cmd.isExit = false ∧ r.2.contains (.runWorker 1 C02.hoB 0) = true ∧ (r.1.workers 1).queue = [] ∧
+      r.2.any (fun c => match c with | .queueEvent att (some 2) none => att.ev.ty == tyStepFailed | _ => false) = true := by
+  decide
